@@ -67,7 +67,7 @@ Definition fctrl_marshal (c : fctrl) : outcome N :=
 
 Definition fhdr_marshal (h : fhdr) : outcome (list N) :=
   do opts <- items_marshal (fopts h);
-  let n := N.of_nat (length opts) mod 256 in         (* uint8(len(opts)) *)
+  let n := N.of_nat (length opts) in                 (* len(opts) > 15 is tested before the narrowing to uint8 (fix C07-FOptsLen) *)
   if 15 <? n then Err else
   let c := fc h in
   do cb <- fctrl_marshal (mkFCtrl (adr c) (adrackreq c) (ack c) (fpending c) (classb c) n);
@@ -210,7 +210,7 @@ Definition joinaccept_unmarshal (data : list N) : outcome payload :=
   let '(optneg, rx2, rx1) := dec_dlsettings (nth 10 data 0) in
   do cf <- (if Nat.eqb l 28 then do c <- cflist_unmarshal (skipn 12 data); Ok (Some c) else Ok None);
   Ok (PLJoinAccept (le_val (firstn 3 data)) (rev (firstn 3 (skipn 3 data))) (rev (firstn 4 (skipn 6 data)))
-                   optneg rx2 rx1 (nth 11 data 0) cf).
+                   optneg rx2 rx1 (N.land (nth 11 data 0) 15) cf).   (* bits 7..4 of the RxDelay octet are RFU (fix C06-4) *)
 
 Definition phy_unmarshal (data : list N) : outcome phy :=
   let n := length data in
